@@ -1,0 +1,76 @@
+// SPDX-FileCopyrightText: 2026 The Pion community <https://pion.ly>
+// SPDX-License-Identifier: MIT
+
+//go:build verif
+
+package webrtc
+
+// Contracts for C08 (answer directions are legal responses to the offered directions,
+// RFC 3264 section 6.1). Comments only; syntax in /verif/DESIGN.md section 4.
+
+//@ func specLegalAnswer
+//@ pure
+//@ nosafety
+//@ func specPreferredFor
+//@ pure
+//@ nosafety
+//@ func specValidDirection
+//@ pure
+//@ nosafety
+
+// The direction a transceiver will answer with lives in RTPTransceiver.direction, stored
+// only by setDirection.
+//@ field RTPTransceiver.direction props C08 writers (*RTPTransceiver).setDirection
+//@ field RTPTransceiver.kind props C08 writers newRTPTransceiver
+
+//@ func (*RTPTransceiver).Direction
+//@ inline
+//@ func (*RTPTransceiver).setDirection
+//@ props C08
+//@ requires t != nil
+//@ ensures t.Direction() == d
+//@ modifies t.direction
+
+// Stop leaves the transceiver inactive (backs the clause assumed at its call sites).
+//@ func (*RTPTransceiver).Stop #dir
+//@ props C08
+//@ nosafety
+//@ requires t != nil
+//@ ensures err == nil ==> t.Direction() == RTPTransceiverDirectionInactive
+
+//@ func newRTPTransceiver
+//@ props C08
+//@ nosafety
+//@ ensures result != nil && fresh(result) && result.Direction() == direction && result.kind == kind && result.Mid() == ""
+
+// Picking an unused local transceiver for a new remote section: the one returned has no
+// mid, the remote section's kind, and a direction RFC 3264 allows as the answer to the
+// offered direction (stated over the entry state: the function only edits the list, and the
+// direction, kind and mid fields are under write-set declarations that exclude it).
+//@ func satisfyTypeAndDirection
+//@ props C08
+//@ requires forall k int :: 0 <= k && k < len(localTransceivers) ==> localTransceivers[k] != nil
+//@ ensures ret0 != nil ==> old(ret0.Mid()) == "" && old(ret0.kind) == remoteKind && specPreferredFor(remoteDirection, old(ret0.Direction()))
+//@ loop 0 invariant forall k int :: 0 <= k && k < len(localTransceivers) ==> localTransceivers[k] != nil
+//@ loop 1 invariant forall k int :: 0 <= k && k < len(localTransceivers) ==> localTransceivers[k] != nil
+
+//@ func findByMid
+//@ props C08
+//@ requires forall k int :: 0 <= k && k < len(localTransceivers) ==> localTransceivers[k] != nil
+//@ ensures ret0 != nil ==> old(ret0.Mid()) == mid
+//@ loop 0 invariant forall k int :: 0 <= k && k < len(localTransceivers) ==> localTransceivers[k] != nil
+
+// After the direction adjustment for one remote media section (anchor: the Mid() test
+// that follows it) the transceiver's direction is a legal answer to the offered direction
+// (for the four named directions on both sides).
+//@ func (*PeerConnection).SetRemoteDescription #directions
+//@ props C08
+//@ nosafety
+//@ requires pcValid(pc) && !pc.isClosed.Load()
+//@ atcall (*RTPTransceiver).Mid assert specValidDirection(direction) && specValidDirection(callarg0.Direction()) ==> specLegalAnswer(direction, callarg0.Direction())
+
+// The answer states exactly the transceiver's direction.
+//@ func addTransceiverSDP #direction
+//@ props C08
+//@ nosafety
+//@ atcall (*sdp.MediaDescription).WithPropertyAttribute assert callarg1 != sdp.AttrKeyRTCPMux && callarg1 != sdp.AttrKeyRTCPRsize && transceiver.Direction() >= RTPTransceiverDirectionSendrecv && transceiver.Direction() <= RTPTransceiverDirectionInactive ==> callarg1 == transceiver.Direction().String()
